@@ -83,6 +83,29 @@ func c16(r *Report) {
 				r.Decide("flow", key, decoded || dech, map[bool]string{true: "BodyReader(Decode())", false: "httputil.NewChunkedReader on the chunked edge feeds every consumer"}[decoded], "the snapshot body (which keeps chunk framing) is parsed as if it were the plain body: chunk sizes end up in the HAR entry", c.Pos())
 			}
 		}
+		// the content decoders are used whole: a gzip body may consist of several
+		// members (RFC 1952), which gzip.Reader reads through unless told not to;
+		// nothing bounds the decoded stream either
+		for _, pkg := range []string{"messageview", "har"} {
+			n := 0
+			for _, f := range w.Funcs(pkg) {
+				for _, c := range calls(f, "(*compress/gzip.Reader).Multistream", "io.LimitReader", "io.CopyN") {
+					cut := true
+					if calleeName(c) == "(*compress/gzip.Reader).Multistream" {
+						if b, isB := constBool(c.Common().Args[1]); isB && b {
+							cut = false
+						}
+					}
+					if cut {
+						n++
+						r.Fail("callgraph", fmt.Sprintf("%s: %s", fnName(f), site(f, c)), "the decoded body is cut short (multistream disabled or a length limit on the reader): content text and size no longer equal the fully decoded body", nil, c.Pos())
+					}
+				}
+			}
+			if n == 0 {
+				r.Hold("callgraph", "package "+pkg+": decoded bodies are read to their end", "no Multistream(false), LimitReader or CopyN on a body reader")
+			}
+		}
 	})
 
 	r.Guard("C16.R7", "a view that is snapshotted into is new, unless the snapshot re-initialises everything it later reads", func() {
@@ -458,7 +481,160 @@ func c16(r *Report) {
 			}
 		}
 		r.Decide("flow", "M/har.NewRequest: passes its request and capture flag to postData", okF, "postData(req, withBody)", "the capture flag is not the one handed to the post-data reader", nreq.Pos())
+		// the content-type options compare case-insensitively, all of them: in
+		// every function installed as postDataLogging / bodyLogging both
+		// operands of the prefix test are lower-cased
+		nsib := 0
+		for _, f := range w.Funcs("har") {
+			installed := false
+			if f.Parent() != nil && f.Parent().Parent() != nil {
+				for _, in := range instrs(f.Parent()) {
+					st, ok := in.(*ssa.Store)
+					if !ok {
+						continue
+					}
+					fa, ok := st.Addr.(*ssa.FieldAddr)
+					if !ok || (fieldObj(fa).Name() != "postDataLogging" && fieldObj(fa).Name() != "bodyLogging") {
+						continue
+					}
+					if mc, isMC := st.Val.(*ssa.MakeClosure); isMC && mc.Fn == ssa.Value(f) {
+						installed = true
+					}
+					if fn, isFn := st.Val.(*ssa.Function); isFn && fn == f {
+						installed = true
+					}
+				}
+			}
+			if !installed {
+				continue
+			}
+			for _, c := range plainCalls(f, "strings.HasPrefix") {
+				nsib++
+				r.Touch(f)
+				bad := ""
+				for k, a := range c.Call.Args {
+					if !isLowered(a, 0) {
+						bad = []string{"the message's content type", "the configured content type"}[k]
+					}
+				}
+				r.Decide("sibling", fmt.Sprintf("%s: content types are compared case-insensitively", fnName(f)), bad == "", "both operands of the prefix test are lower-cased", bad+" is compared without being lower-cased (its sibling options do lower-case it): a Content-Type in another letter case escapes this option", c.Pos())
+			}
+		}
+		if nsib < 4 {
+			r.Undecided("content-type options", fmt.Sprintf("UNRESOLVED: %d prefix tests found in installed option functions, 4 confirmed on the pinned tree", nsib))
+		}
 	})
+}
+
+// isLowered: on every way back to its sources, v passes through
+// strings.ToLower (or is a constant without upper-case letters).
+func isLowered(v ssa.Value, depth int) bool {
+	if depth > 12 || v == nil {
+		return false
+	}
+	allStores := func(slice ssa.Value) bool {
+		// every element stored into a freshly made slice is lowered
+		found := false
+		if slice.Referrers() == nil {
+			return false
+		}
+		for _, u := range *slice.Referrers() {
+			ia, ok := u.(*ssa.IndexAddr)
+			if !ok || ia.Referrers() == nil {
+				continue
+			}
+			for _, uu := range *ia.Referrers() {
+				if st, ok := uu.(*ssa.Store); ok && st.Addr == ssa.Value(ia) {
+					found = true
+					if !isLowered(st.Val, depth+1) {
+						return false
+					}
+				}
+			}
+		}
+		return found
+	}
+	switch x := v.(type) {
+	case *ssa.Const:
+		s, ok := constString(x)
+		return ok && s == strings.ToLower(s)
+	case *ssa.Call:
+		if calleeName(x) == "strings.ToLower" {
+			return true
+		}
+		if fn := x.Call.StaticCallee(); fn != nil && fn.Blocks != nil && fn.Pkg != nil && strings.HasPrefix(fn.Pkg.Pkg.Path(), M) {
+			rets := returns(fn)
+			for _, ret := range rets {
+				if len(ret.Results) != 1 || !isLowered(ret.Results[0], depth+1) {
+					return false
+				}
+			}
+			return len(rets) > 0
+		}
+		return false
+	case *ssa.Phi:
+		for _, e := range x.Edges {
+			if !isLowered(e, depth+1) {
+				return false
+			}
+		}
+		return true
+	case *ssa.Extract:
+		if nx, ok := x.Tuple.(*ssa.Next); ok {
+			if rg, ok := nx.Iter.(*ssa.Range); ok {
+				return isLowered(rg.X, depth+1)
+			}
+		}
+		return false
+	case *ssa.MakeSlice:
+		return allStores(x)
+	case *ssa.Slice:
+		return isLowered(x.X, depth+1)
+	case *ssa.Alloc:
+		return allStores(x)
+	case *ssa.UnOp:
+		if x.Op != token.MUL {
+			return false
+		}
+		switch a := x.X.(type) {
+		case *ssa.IndexAddr:
+			return isLowered(a.X, depth+1)
+		case *ssa.Alloc:
+			sts := storesTo(a)
+			for _, st := range sts {
+				if !isLowered(st.Val, depth+1) {
+					return false
+				}
+			}
+			return len(sts) > 0
+		case *ssa.FreeVar:
+			b := resolveFree(a)
+			if b == ssa.Value(a) {
+				return false
+			}
+			if al, ok := b.(*ssa.Alloc); ok {
+				if v := capturedValue(al); v != nil {
+					return isLowered(v, depth+1)
+				}
+				sts := storesTo(al)
+				for _, st := range sts {
+					if !isLowered(st.Val, depth+1) {
+						return false
+					}
+				}
+				return len(sts) > 0
+			}
+			return isLowered(b, depth+1)
+		}
+		return false
+	case *ssa.FreeVar:
+		b := resolveFree(x)
+		if b == ssa.Value(x) {
+			return false
+		}
+		return isLowered(b, depth+1)
+	}
+	return false
 }
 
 func sameBase64(m, u *ssa.Function) bool {
@@ -500,4 +676,40 @@ func (w *World) backSliceLocal(v ssa.Value) map[ssa.Value]bool {
 	}
 	visit(v)
 	return seen
+}
+
+// capturedValue: the value a captured variable cell holds when the closure
+// capturing it is created, if the stores to the cell in its function are
+// totally ordered and all precede the capture; nil otherwise.
+func capturedValue(cell *ssa.Alloc) ssa.Value {
+	f := cell.Parent()
+	var capture ssa.Instruction
+	for _, in := range instrs(f) {
+		if mc, ok := in.(*ssa.MakeClosure); ok {
+			for _, b := range mc.Bindings {
+				if b == ssa.Value(cell) && capture == nil {
+					capture = mc
+				}
+			}
+		}
+	}
+	if capture == nil {
+		return nil
+	}
+	g := G(f)
+	var last *ssa.Store
+	for _, st := range storesTo(cell) {
+		if st.Parent() != f || !(g.Before(st, capture)) {
+			return nil
+		}
+		if last == nil || g.Before(last, st) {
+			last = st
+		} else if !g.Before(st, last) {
+			return nil
+		}
+	}
+	if last == nil {
+		return nil
+	}
+	return last.Val
 }
